@@ -601,6 +601,7 @@ func C10(run *mon.Run) {
 		}
 	}
 	c10Directed(run, fixtures0, states, &mu)
+	c10ForceDisqualify(run, fixtures0)
 	c10ConstructorGrid(run)
 	run.Extra["model_states_visited"] = len(states)
 	run.Require(len(states) == 5+5+3, fmt.Sprintf("model states visited: %d of 13 (N,R0,R1,R2,E for Qual and JF; N,R0,E for plain VSS)", len(states)))
@@ -679,6 +680,122 @@ func c10Directed(run *mon.Run, fixtures []*dkgFixture, states map[string]bool, m
 		}
 	}
 	run.Shape("directed-sequences")
+}
+
+// c10ForceDisqualify: what an accepted ForceDisqualify(p) does, on runs fed with the companions' honest
+// messages. Feldman-VSS-Qual (non-dealer): p = dealer makes End fail with a DKG failure whenever it is
+// called while running (before or after the messages, between the timeouts); any other p changes nothing
+// (same keys as the run without the call). Joint-Feldman: forcing dealer d out gives exactly the keys of
+// the run in which d's vector never arrived (d disqualified by the protocol itself), different from the
+// keys of the undisturbed run.
+func c10ForceDisqualify(run *mon.Run, fixtures []*dkgFixture) {
+	type res struct {
+		err error
+		gpk []byte
+		pks string
+		sk  []byte
+	}
+	play := func(f *dkgFixture, fdAt int, fdWho int, skipVectorOf int) (res, bool) {
+		rp := newRecProc()
+		in, err := f.newInstance(rp)
+		if err != nil {
+			return res{}, false
+		}
+		var out res
+		problem := false
+		func() {
+			defer func() {
+				if e := recover(); e != nil {
+					problem = true
+				}
+			}()
+			step := 0
+			fd := func() {
+				if step == fdAt && fdWho >= 0 {
+					if e := in.ForceDisqualify(fdWho); e != nil {
+						problem = true
+					}
+				}
+				step++
+			}
+			_ = in.Start(bytes.Repeat([]byte{0x44}, 32))
+			fd() // 0: right after Start
+			for o := 0; o < f.n; o++ {
+				if o == f.me {
+					continue
+				}
+				for _, m := range f.validBcast[o] {
+					if len(m) > 0 && m[0] == sim.TagVector && o != skipVectorOf {
+						_ = in.HandleBroadcastMsg(o, append([]byte{}, m...))
+					}
+				}
+				for _, m := range f.validPrivate[o] {
+					_ = in.HandlePrivateMsg(o, append([]byte{}, m...))
+				}
+			}
+			fd() // 1: after vectors and shares
+			_ = in.NextTimeout()
+			fd() // 2: between the timeouts
+			_ = in.NextTimeout()
+			fd() // 3: after both timeouts
+			sk, gpk, pks, e := in.End()
+			out.err = e
+			if e == nil {
+				out.gpk, out.sk = gpk.Encode(), sk.Encode()
+				for _, k := range pks {
+					out.pks += mon.Hex(k.Encode())
+				}
+			}
+		}()
+		return out, !problem
+	}
+	same := func(a, b res) bool {
+		return (a.err == nil) == (b.err == nil) && bytes.Equal(a.gpk, b.gpk) && a.pks == b.pks && bytes.Equal(a.sk, b.sk)
+	}
+	for _, f := range fixtures {
+		if f.asDealer || f.p == pVSS {
+			continue
+		}
+		base, ok := play(f, -1, -1, -1)
+		if !ok || base.err != nil {
+			run.Inconclusive(fmt.Sprintf("C10 ForceDisqualify leg: the undisturbed %v run does not end with keys (%v)", f.p, base.err))
+			return
+		}
+		for at := 0; at < 4; at++ {
+			for who := 0; who < f.n; who++ {
+				if who == f.me {
+					continue
+				}
+				got, ok := play(f, at, who, -1)
+				run.Eval(1)
+				run.Count("force-disqualify.runs", 1)
+				rep := map[string]any{"protocol": fmt.Sprint(f.p), "n": f.n, "t": f.t, "me": f.me, "forced": who, "at_step": at}
+				if !ok {
+					run.Violate("C10:force-disqualify:refused-or-panic", fmt.Sprintf("%v: ForceDisqualify(%d) at step %d of a running instance was refused or panicked", f.p, who, at), rep)
+					continue
+				}
+				switch {
+				case f.p == pQual && who == f.dealer:
+					if !crypto.IsDKGFailureError(got.err) {
+						run.Violate("C10:force-disqualify:dealer-still-qualified", fmt.Sprintf("Feldman-VSS-Qual: after ForceDisqualify(dealer=%d) at step %d End() returned %v instead of a DKG failure", who, at, got.err), rep)
+					}
+				case f.p == pQual:
+					if !same(got, base) {
+						run.Violate("C10:force-disqualify:non-dealer-has-effect", fmt.Sprintf("Feldman-VSS-Qual: ForceDisqualify(%d) of a participant that is not the dealer (step %d) changed the outcome of End() (%v)", who, at, got.err), rep)
+					}
+				default: // Joint-Feldman
+					want, ok2 := play(f, -1, -1, who)
+					if !ok2 {
+						continue
+					}
+					if !same(got, want) || same(got, base) {
+						run.Violate("C10:force-disqualify:joint-feldman", fmt.Sprintf("Joint-Feldman: the keys after ForceDisqualify(%d) at step %d differ from those of the run in which dealer %d is disqualified by the protocol (missing vector), or equal those of the undisturbed run (End: %v / %v)", who, at, who, got.err, want.err), rep)
+					}
+				}
+			}
+		}
+		run.Shape(fmt.Sprintf("force-disqualify|%v|%d", f.p, f.n))
+	}
 }
 
 // c10ConstructorGrid: the three constructors accept exactly size in [2, 254], threshold in [1, size-1]
